@@ -160,7 +160,9 @@ fn outcome(s: &str, r: Result<Info, (String, String)>, ctx: &Ctx) -> Outcome {
 
 // ------------------------------------------------------------------ exhaustive short strings
 
-const CONTEXTS: &[(&str, &str)] = &[("10 ", ""), ("10 ?", ""), ("10 A=", ""), ("10 IF ", " THEN 20"), ("", ""), ("10 ?1", ";2")];
+// The CLEAR context makes every token sequence part of an accepted line (CLEAR ignores its
+// options), so the fixed-point clause applies to all of them, not only to well-formed statements.
+const CONTEXTS: &[(&str, &str)] = &[("10 ", ""), ("10 ?", ""), ("10 A=", ""), ("10 IF ", " THEN 20"), ("", ""), ("10 ?1", ";2"), ("10 CLEAR ", "")];
 
 struct Alphabet {
     name: &'static str,
@@ -366,8 +368,8 @@ pub fn property() -> Property {
     Property {
         id: "C05",
         rule: "Cases: (a) exhaustively all strings of <= k symbols (k = 3..4 quick, 4..6 thorough) over four lexically significant alphabets — number characters (digits . E D e d + - ! # % $ & H), \
-relational/punctuation characters, the letters of GO TO SUB REM IF FN, blanks that are not BASIC blanks (vertical tab, form feed, no-break and ideographic space), and a word-level alphabet (GO TO SUB REM IF THEN ELSE FN PRINT DATA ' \" é 1E &H ...) — each embedded in six contexts \
-(`10 •`, `10 ?•`, `10 A=•`, `10 IF • THEN 20`, direct, `10 ?1•;2`); (b) proptest-generated long lines: token soup, mutated and re-spelled statement snippets, arbitrary UTF-8, lines at the 1024-byte limit; \
+relational/punctuation characters, the letters of GO TO SUB REM IF FN, blanks that are not BASIC blanks (vertical tab, form feed, no-break and ideographic space), and a word-level alphabet (GO TO SUB REM IF THEN ELSE FN PRINT DATA ' \" é 1E &H ...) — each embedded in seven contexts \
+(`10 •`, `10 ?•`, `10 A=•`, `10 IF • THEN 20`, direct, `10 ?1•;2`, `10 CLEAR •` — CLEAR ignores its options, so every token sequence there is part of an accepted line); (b) proptest-generated long lines: token soup, mutated and re-spelled statement snippets, arbitrary UTF-8, lines at the 1024-byte limit; \
 (c) a corpus of lines from the repository's tests and earlier findings. Oracle (round trip): t1 = Line::new(s).to_string(), t2 = Line::new(t1).to_string(): same line number; column-free AST of s and t1 equal, or both rejected; \
 t2 == t1 when accepted; string literals and remark texts equal; Listing::load_str(t1) reproduces t1; for generated lines also the runtime's LIST event equals t1. \
 Non-trivial: >= 2 tokens and (the lister changed the text, or the line holds a literal/remark). Distinct by source text.",
